@@ -59,17 +59,20 @@ def _satsolve_filein_fileout(F, cmd='minisat', verbose=0):
     """
     # Minisat does not operate on stdin/stdout so we need temporary
     # files
-    cnf = tempfile.NamedTemporaryFile(delete=False)
-    sat = tempfile.NamedTemporaryFile(delete=False)
-    cnf.write(F.to_dimacs().encode("ascii"))
-    cnf.close()
-    sat.close()
-
+    cnf = None
+    sat = None
     output = b''
     foutput = []
 
-    # Run the command, store its output and remove the temporary files.
+    # Create the temporary files, run the command, store its output
+    # and remove the temporary files, whatever fails on the way.
     try:
+
+        cnf = tempfile.NamedTemporaryFile(delete=False)
+        sat = tempfile.NamedTemporaryFile(delete=False)
+        cnf.write(F.to_dimacs().encode("ascii"))
+        cnf.close()
+        sat.close()
 
         final_command = cmd + " " + cnf.name + " " + sat.name
 
@@ -86,8 +89,16 @@ def _satsolve_filein_fileout(F, cmd='minisat', verbose=0):
     except OSError:
         pass
     finally:
-        os.unlink(cnf.name)
-        os.unlink(sat.name)
+        if cnf is not None:
+            try:
+                os.unlink(cnf.name)
+            except OSError:
+                pass
+        if sat is not None:
+            try:
+                os.unlink(sat.name)
+            except OSError:
+                pass
 
     # At this point `output` is either the list ["UNSAT"] or a list of
     # the form ["SAT","v1","v2",...,"vn"] where each "vi" is either
@@ -104,7 +115,7 @@ def _satsolve_filein_fileout(F, cmd='minisat', verbose=0):
     if len(foutput) == 0:
 
         raise RuntimeError("Error during SAT solver call: {}.\n".format(
-            " ".join([cmd, cnf.name, sat.name])))
+            " ".join([cmd] + [f.name for f in (cnf, sat) if f is not None])))
 
     elif foutput[0] == 'SAT':
 
@@ -114,7 +125,7 @@ def _satsolve_filein_fileout(F, cmd='minisat', verbose=0):
             witness = [int(v) for v in foutput[1:] if v != '0']
         except ValueError:
             raise RuntimeError("Error during SAT solver call: {}.\n".format(
-                " ".join([cmd, cnf.name, sat.name])))
+                " ".join([cmd] + [f.name for f in (cnf, sat) if f is not None])))
         # Sort the the witness by variable id
         witness = sorted(witness, key=abs)
 
@@ -125,7 +136,7 @@ def _satsolve_filein_fileout(F, cmd='minisat', verbose=0):
     else:
 
         raise RuntimeError("Error during SAT solver call: {}.\n".format(
-            " ".join([cmd, cnf.name, sat.name])))
+            " ".join([cmd] + [f.name for f in (cnf, sat) if f is not None])))
 
     return (result, witness if result else None)
 
@@ -273,13 +284,14 @@ def _satsolve_filein_stdout(F, cmd='sat4j', verbose=0):
 
     """
     # Input formula must be on file.
-    cnf = tempfile.NamedTemporaryFile(delete=False)
-    cnf.write(F.to_dimacs().encode("ascii"))
-    cnf.close()
-
+    cnf = None
     output = b''
 
     try:
+
+        cnf = tempfile.NamedTemporaryFile(delete=False)
+        cnf.write(F.to_dimacs().encode("ascii"))
+        cnf.close()
 
         final_command = cmd + " " + cnf.name
 
@@ -293,7 +305,11 @@ def _satsolve_filein_stdout(F, cmd='sat4j', verbose=0):
     except OSError:
         pass
     finally:
-        os.unlink(cnf.name)
+        if cnf is not None:
+            try:
+                os.unlink(cnf.name)
+            except OSError:
+                pass
 
     # parse the solver output, for example
     #
@@ -335,7 +351,8 @@ def _satsolve_filein_stdout(F, cmd='sat4j', verbose=0):
 
     if result is None:
         raise RuntimeError(
-            "Error during SAT solver call: {}.\n".format(cmd + " " + cnf.name))
+            "Error during SAT solver call: {}.\n".format(
+                " ".join([cmd] + [f.name for f in (cnf,) if f is not None])))
 
     # Sort the the witness by variable id
     witness = sorted(witness,key=abs)
